@@ -975,6 +975,29 @@ def c01r(ctx):
             ctx.fail(o, pushes[0], "a caller is scheduled for backward projection under is_projection() == %s (must be exactly `true`)" % (sorted(pol) or "no test"))
         if not any(x.kind == "call" and (x.callee() or "").endswith("get_backward_edges_unchecked") for x in df.origins_of_operand(bp, pushes[0].node["args"][1])):
             ctx.fail(o, pushes[0], "what is scheduled is not a source of this node's backward edges")
+    # ---- the recorded order of top-level dependencies is only changed in order-preserving ways
+    o = ctx.ob("C01.r", "CalleeOrder/order-preserving-updates", "K3",
+               "the top-level `order` vector of CalleeOrder is only pushed to, removed from (Vec::remove) or cleared: never swap_remove / swap / sort / reverse / insert")
+    n_ = 0
+    for x in prog.bodies.values():
+        if not x.name.startswith("CalleeOrder::") and not x.name.startswith("QueryComputing::"):
+            continue
+        for s_ in x.calls_to(r"alloc::vec::Vec::<T(, A)?>::[a-z_]+$|slice::<impl \[T\]>::[a-z_]+$"):
+            if not s_.node["args"]:
+                continue
+            ap = df.access_path(x, s_.node["args"][0])
+            fl = [e for e in ap if not e.startswith("<")]
+            if not fl or fl[-1] != "order":
+                continue
+            n_ += 1
+            ctx.touch(x)
+            m = s_.node["fn"]["path"].rsplit("::", 1)[-1]
+            if m in ("swap_remove", "swap", "sort", "sort_by", "sort_by_key", "sort_unstable", "sort_unstable_by", "sort_unstable_by_key", "reverse", "rotate_left", "rotate_right", "insert", "dedup", "retain_mut"):
+                ctx.fail(o, s_, "%s changes the recorded dependency order with Vec::%s: the order is stored and repaired front to back (a later dependency may only be "
+                         "re-verified if the earlier ones are unchanged), so it must stay the order of registration" % (x.name, m))
+    o.sites = n_
+    if n_ < 3:
+        ctx.fail(o, "(program)", "expected >= 3 updates of CalleeOrder.order, found %d" % n_)
     # ---- un-registering a callee removes exactly that callee from the recorded order
     o = ctx.ob("C01.r", "CalleeOrder::abort_callee/removes-exactly-the-callee", "K5",
                "CalleeOrder::abort_callee selects the entry to remove by equality with the callee it was given")
